@@ -6,7 +6,7 @@ import (
 	"sort"
 	"strings"
 
-	"golang.org/x/tools/go/ssa"
+	"ikeverif/checker/xt/ssa"
 )
 
 // normalised row sets used by C03 / C05 / C12.
